@@ -68,22 +68,22 @@ func genConfig(r *rng, n int, tier string, emit func(string)) {
 	for _, c := range []string{
 		"cfg s_A - 0 1 N ~ t_A_A 0 0 0 0",
 		"cfg s_A kafka 5 2 N a t_A_B 2 3 2 1 N b t_B_A 0 0 0 0 N c t_B_N 1 1 0 0 N h t_E_N 0 0 0 0 N d t_A_A 0 0 0 0",
-		"cfg s_A - 0 1 N a t_A_A 0 0 2 0 N b t_A_A 0 0 0 0 N b t_A_A 0 0 0 0",                     // duplicate siblings (off spine)
-		"cfg s_A - 0 1 N a t_A_A 0 0 1 0 N a t_A_A 0 0 0 0",                                         // duplicate parent/first child (on spine)
-		"cfg s_A - 0 2 N a t_A_A 0 0 0 0 N a t_A_A 0 0 0 0",                                         // duplicate roots
+		"cfg s_A - 0 1 N a t_A_A 0 0 2 0 N b t_A_A 0 0 0 0 N b t_A_A 0 0 0 0",                                     // duplicate siblings (off spine)
+		"cfg s_A - 0 1 N a t_A_A 0 0 1 0 N a t_A_A 0 0 0 0",                                                       // duplicate parent/first child (on spine)
+		"cfg s_A - 0 2 N a t_A_A 0 0 0 0 N a t_A_A 0 0 0 0",                                                       // duplicate roots
 		"cfg s_A - 0 1 N a t_A_A 0 0 2 0 N b t_A_A 0 0 1 0 N x t_A_A 0 0 0 0 N c t_A_A 0 0 1 0 N x t_A_A 0 0 0 0", // cousins
-		"cfg s_A - 0 1 N ~ t_A_A 0 0 1 0 N ~ t_A_A 0 0 0 0",                                         // defaulted ids collide
+		"cfg s_A - 0 1 N ~ t_A_A 0 0 1 0 N ~ t_A_A 0 0 0 0",                                                       // defaulted ids collide
 		"cfg s_A amqp 0 1 N a t_A_A 0 0 0 0",
 		"cfg s_X - 0 1 N a t_A_A 0 0 0 0",
 		"cfg s_A - 0 1 N a t_B_A 0 0 0 0",
 		"cfg s_A - 0 1 N a t_A_B 0 0 1 0 N b t_A_A 0 0 0 0",
-		"cfg s_A - 0 1 N a t_A_N 0 0 1 0 N b t_A_A 0 0 0 0",                                         // sink with a child: panics in config.Read
-		"cfg s_A - 0 1 N a t_A_A 0 0 0 1 N h t_A_A 0 0 0 0",                                         // handler consumes wrong type
-		"cfg s_A - 0 1 N a t_A_A 0 0 0 1 N h t_E_N 0 0 1 0 N hc t_A_A 0 0 0 0",                      // handler with children
-		"cfg s_A - 0 1 N a t_A_A 0 0 0 1 N h t_E_N 0 0 0 1 N hh t_E_N 0 0 0 0",                      // handler with handler
-		"cfg s_A - -3 1 N a t_A_A 0 0 0 1 N ~ zz 0 0 0 0",                                           // unregistered handler
-		"cfg s_Y - 0 2 N a t_Y_Z 0 0 1 0 N b t_Z_I 0 0 1 0 N c t_I_N 0 0 0 0 N d t_Z_N 0 0 0 0",   // second root consumes a type the source's is assignable to
-		"cfg s_Y - 0 1 N a t_Y_Y 0 0 1 0 N b t_I_A 0 0 0 0",                                         // child consumes interface{}
+		"cfg s_A - 0 1 N a t_A_N 0 0 1 0 N b t_A_A 0 0 0 0",                                     // sink with a child: panics in config.Read
+		"cfg s_A - 0 1 N a t_A_A 0 0 0 1 N h t_A_A 0 0 0 0",                                     // handler consumes wrong type
+		"cfg s_A - 0 1 N a t_A_A 0 0 0 1 N h t_E_N 0 0 1 0 N hc t_A_A 0 0 0 0",                  // handler with children
+		"cfg s_A - 0 1 N a t_A_A 0 0 0 1 N h t_E_N 0 0 0 1 N hh t_E_N 0 0 0 0",                  // handler with handler
+		"cfg s_A - -3 1 N a t_A_A 0 0 0 1 N ~ zz 0 0 0 0",                                       // unregistered handler
+		"cfg s_Y - 0 2 N a t_Y_Z 0 0 1 0 N b t_Z_I 0 0 1 0 N c t_I_N 0 0 0 0 N d t_Z_N 0 0 0 0", // second root consumes a type the source's is assignable to
+		"cfg s_Y - 0 1 N a t_Y_Y 0 0 1 0 N b t_I_A 0 0 0 0",                                     // child consumes interface{}
 		"cfg s_Z - 0 1 N a t_Z_Y 0 0 1 0 N b t_Z_A 0 0 0 0",
 	} {
 		emit(c)
@@ -234,6 +234,10 @@ func (n *cnode) yaml(sb *strings.Builder, indent string, asList bool, envName *b
 	fmt.Fprintf(sb, "%sname: %s\n", first, name)
 	if n.id != "" {
 		fmt.Fprintf(sb, "%sid: %s\n", indent, n.id)
+	}
+	if (cfgSel+len(n.name)+len(n.id)+n.workers*3+n.buf)%6 == 2 {
+		// disabled nodes are validated like any other (they are only skipped when the tree is built)
+		fmt.Fprintf(sb, "%sdisabled: true\n", indent)
 	}
 	// a size of 0 means "use the default": the key is omitted, written as an explicit 0, or left empty
 	if n.workers != 0 || (cfgSel/11)%3 == 1 {
